@@ -144,7 +144,7 @@ def load_known_findings(prop: Optional[str] = None) -> List[dict]:
     data = json.loads(KNOWN_FINDINGS.read_text())
     out = [e for e in data.get("findings", []) if e.get("status", "open") == "open"]
     if prop:
-        out = [e for e in out if e.get("property") == prop]
+        out = [e for e in out if e.get("property") == prop or prop in e.get("also", [])]
     return out
 
 
